@@ -74,6 +74,10 @@ func checkC16(w *World, r *Report) {
 	r.Rule("R16.5", "upstream attempts do not share mutable TLS configuration", 3)
 	r.Rule("R16.6", "a closed carrier is seen as closed: the wrappers' Close sets the flag on every path (the reuse test consults Closed())", 2)
 	ruleSafeCloseSetsFlag(w, r, "R16.6")
+	r.Rule("R16.7", "an upstream counts as meeting the security requirement only over a TLS-built carrier or a TLS scheme (else the first, clear-text upstream is settled on and no later one is tried)", 5)
+	if sites7, _ := findConnectSites(w); len(sites7) > 0 {
+		c04CorrelationClient(w, r, "R16.7", sites7)
+	}
 
 	// ---- R16.1
 	hc := w.Method("internal/client/listener", "AbstractListener", "HandleConnection")
